@@ -25,6 +25,7 @@ class View:
         self.stats = {}
         self.paths = 1
         self.coverage_hole = F   # inputs no explored path covers (must be unsat)
+        self.marks = {}          # named guards recorded by the body (merged over paths)
         self.q = None            # Interp to build queries with (solver, interner, mkint, nm)
         self.extra = None        # whatever the body returned (first path in path-wise mode)
 
@@ -51,6 +52,7 @@ def run(make, body, allow_pathwise=True, max_paths=6000, budget_s=600):
             v.stats = dict(it.stats)
             v.q = it
             v.extra = out
+            v.marks = dict(out.get("marks", {}))
             it.solver.add(it.domains())
             return v
         except Unsupported as e:
@@ -91,6 +93,8 @@ def _pathwise(make, body, reason, max_paths, budget_s):
         if out.get("errs") is not None:
             for g, item in out["errs"].entries:
                 v.entries.append((pc, item))
+        for k, mv in (out.get("marks") or {}).items():
+            v.marks[k] = zor(v.marks.get(k, F), zand(pc, mv if z3.is_expr(mv) else z3.BoolVal(bool(mv))))
         for g in it.incomplete:
             v.incomplete.append(pc)
         v.overflow.extend(it.overflow)
